@@ -165,7 +165,7 @@ func run(c *vf.Ctx) {
 	if c.Thorough {
 		k = 3
 	}
-	tierNote := "quick tier: signer-kind configurations use skeletons 2-4 and 6 EXT_INFO variants; executions that run to the 64-attempt cap (partial-success-forever persona, looping AuthCallback) take <=1 deviation within their first 6 choice points"
+	tierNote := "quick tier: signer-kind configurations use skeletons 2-4, 6 EXT_INFO variants and 4 of the 8 method lists {all, all but publickey, publickey only, empty} in FAILURE answers (the 73 method-structure configurations use all 8); executions that run to the 64-attempt cap (partial-success-forever persona, looping AuthCallback) take <=1 deviation within their first 6 choice points"
 	if c.Thorough {
 		tierNote = "thorough tier: all skeletons, EXT_INFO variants and method lists at <=2 deviations; <=3 deviations for the 24 core configurations (ordered subsets of {Password, KeyboardInteractive, PublicKeys(k1,k2)}, RetryableAuthMethod/AuthCallback variants; accepting and rejecting persona, no EXT_INFO) and for PublicKeys(a,b) of every signer pair (accepting persona, server-sig-algs=rsa-sha2-256,rsa-sha2-512); cap-reaching executions <=2 (signer-kind configurations <=1) deviations within their first 8 choice points"
 	}
@@ -203,7 +203,7 @@ func run(c *vf.Ctx) {
 				}
 			}
 		}
-		u.slim = false
+		u.slim = cs.skeleton >= 0 && !c.Thorough
 		units = append(units, u)
 	}
 	for _, cs := range full {
